@@ -11,10 +11,10 @@ for n in sorted(os.listdir(V + "/seeded")):
     m = json.load(open(d + "/meta.json"))
     co = m["check_output"].replace("|", "/").replace("\n", " ")
     first = "caught"
-    if "MISSED" in co:
+    if "MISSED" in co or co.startswith("missed at first"):
         first = "missed, then caught after strengthening"
         missed += 1
-    elif "no-failing-input-found" in co and ("first only" in co or "could not see" in co):
+    elif "no-failing-input-found" in co and ("first only" in co or "could not see" in co or "first reported without" in co):
         first = "caught without a concrete input at first; oracle strengthened"
     rows.append("| %s | %s | %s | %s |" % (n, m["property"], first, co[:430]))
 table = ("| seeded change | property | first run | what the check reports |\n|---|---|---|---|\n" + "\n".join(rows) + "\n")
